@@ -193,7 +193,7 @@ package difflib
 //@   loop 1 invariant (len(A) == 0 && len(B) == 0) ==> len(groups) == 0 && (forall c in 0..len(group): group[c].Tag == 0 && group[c].I2 - group[c].I1 == group[c].J2 - group[c].J1) && len(group) <= $idx
 //@   loop 1 invariant [chg] !sameSeq(A, B) ==> (exists k in 0..len(codes): !sameR(A, B, codes[k]))
 //@   isolate chg, no_omission
-//@   isolate codes, out, outside_same
+//@   isolate codes, out, tail, outside_same
 //@   let nonEmpty = len(A) > 0 || len(B) > 0
 //@   loop 1 invariant [codes] nonEmpty ==> len(codes) >= 1 && (forall k in 0..len(codes) - 1: codes[k].I2 == codes[k + 1].I1 && codes[k].J2 == codes[k + 1].J1)
 //@        && headSame(A, B, codes[0]) && tailSame(A, B, codes[len(codes) - 1])
@@ -202,6 +202,8 @@ package difflib
 //@        && (len(group) > 0 ==> $idx >= 1 && lastOp(group).I2 == codes[$idx - 1].I2 && lastOp(group).J2 == codes[$idx - 1].J2)
 //@        && (len(group) > 0 && len(groups) == 0 ==> headSame(A, B, group[0]))
 //@        && (len(group) > 0 && len(groups) > 0 ==> gapSame(A, B, lastOp(groups[len(groups) - 1]), group[0]))
+//@   loop 1 invariant [tail] nonEmpty && $idx == len(codes) ==> (len(group) >= 1 ==> tailSame(A, B, lastOp(group)))
+//@        && (len(group) == 1 && group[0].Tag == 0 && len(groups) > 0 ==> tailSame(A, B, lastOp(groups[len(groups) - 1])))
 
 //@ func (*sequenceMatcher).chainB(m)
 //@   mode arr
